@@ -69,9 +69,11 @@ fn codec_cases(rng: &mut Rng, thorough: bool) -> Vec<T> {
     }
     // 16-bit windows: exhaustive in thorough runs, strided otherwise
     let step = if thorough { 1u32 } else { 97 };
-    let bases: [u32; 4] = [0, 0x7fff_8000, 0xffff_0000, (rng.next() as u32) & 0xffff_0000];
-    for base in bases {
+    let bases: [u32; 4] = [0, 0xffff_0000, 0x7fff_8000, (rng.next() as u32) & 0xffff_0000];
+    for (bi, base) in bases.into_iter().enumerate() {
         let other = *rng.pick(&EDGE32);
+        // thorough: the lowest and the highest window exhaustively, the other two with stride 5
+        let step = if thorough && bi >= 2 { 5 } else { step };
         let mut x = 0u32;
         while x < 0x1_0000 {
             let w = base.wrapping_add(x);
@@ -88,7 +90,7 @@ fn codec_cases(rng: &mut Rng, thorough: bool) -> Vec<T> {
         r += step;
     }
     // random 64-bit values
-    for _ in 0..(if thorough { 60_000 } else { 1500 }) {
+    for _ in 0..(if thorough { 25_000 } else { 1500 }) {
         let val = rng.next();
         v.push(T::l(vec![n(2), n(val)]));
         v.push(T::l(vec![n(3), n(val)]));
